@@ -1,5 +1,6 @@
 import Drivers.Wire
 import Model.Search
+import Model.SearchObjects
 
 /-! Driver for C03.
 
@@ -7,9 +8,19 @@ import Model.Search
   "calls":[{"n":2,"strict":false,"timeout":null,"env":[[1,false],[2,true]]}, ...]}`
 → `{"ok":true,"outs":[{"stop":"budget","evals":3,"table":3,"asks":[3]},...],"quiet":true}`
 
-`env` = per loop iteration `[g, expired]` as observed on the implementation. -/
+`env` = per loop iteration `[g, expired]` as observed on the implementation.
 
-open Lean DH.Wire DH.Search
+`{"op":"world","W":3,"nev":2,"cwd":[0],"ops":[{"t":"new","ev":0,"rel":[]},
+   {"t":"call","ev":0,"o":0,"n":2,"strict":false,"timeout":null,"env":[[1,false]],"cwd_after":[1]},
+   {"t":"chdir","p":[2]}, {"t":"new","ev":1,"abs":[0]}, ...]}`
+→ `{"ok":true,"outs":[{"stop":"budget","evals":3,"asks":[3],"table":{"rows":3,"ok":true}},...]}`
+(one entry per `call`): `Model/SearchObjects.lean` — search objects constructed (`new`) at any time
+on `nev` evaluators sharing the file system and the working directory; `"o"` = number of the object
+among those constructed on evaluator `"ev"`; directories are lists of component ids;
+`"initResets":false` / `"perFile":false` select the code before the two repairs of the dump
+state. -/
+
+open Lean DH.Wire DH.Search DH.SearchObjects
 
 def stopName : Stop → String
   | .budget => "budget" | .cap => "cap" | .timeout => "timeout" | .badTimeout => "badTimeout"
@@ -36,6 +47,34 @@ def outJson (o : Out) : Json :=
     ("table", match o.table with | some r => Json.num (JsonNumber.fromNat r) | none => Json.null),
     ("asks", ofNats o.asks)]
 
+def jPath (j : Json) : Except String Path := jList jNat j
+
+def jOp (j : Json) : Except String (Nat × Op) := do
+  let t ← (← field j "t").getStr?
+  match t with
+  | "chdir" => return (0, .chdir (← jPath (← field j "p")))
+  | "new" =>
+    let e ← jNat (← field j "ev")
+    match fieldD j "abs" Json.null with
+    | .null => return (e, .new (.rel (← jPath (← field j "rel"))))
+    | v => return (e, .new (.abs (← jPath v)))
+  | "call" =>
+    let e ← jNat (← field j "ev")
+    let o ← jNat (← field j "o")
+    let (c, env) ← jCall j
+    let after ← match fieldD j "cwd_after" Json.null with
+      | .null => pure none
+      | v => do pure (some (← jPath v))
+    return (e, .call o c env after)
+  | _ => throw s!"unknown event {t}"
+
+def outWJson (o : OutW) : Json :=
+  Json.mkObj [("stop", stopName o.out.stop), ("evals", Json.num (JsonNumber.fromNat o.out.evals)),
+    ("asks", ofNats o.out.asks),
+    ("table", match o.table with
+      | some t => Json.mkObj [("rows", Json.num (JsonNumber.fromNat t.rows)), ("ok", t.wellFormed)]
+      | none => Json.null)]
+
 def handle (j : Json) : Except String Json := do
   let op ← (← field j "op").getStr?
   match op with
@@ -53,6 +92,23 @@ def handle (j : Json) : Except String Json := do
     let quiet := s.running == 0 && s.stored == s.gathered && s.pending == 0 && s.rows == s.gathered
     return Json.mkObj [("ok", true), ("outs", Json.arr (r.2.map outJson).toArray),
       ("quiet", quiet), ("rows", Json.num (JsonNumber.fromNat s.rows))]
+  | "world" =>
+    let W ← jNat (← field j "W")
+    let nev ← jNat (← field j "nev")
+    let cwd ← jPath (← field j "cwd")
+    let ir ← match fieldD j "initResets" Json.null with
+      | .null => pure true
+      | v => jBool v
+    let pf ← match fieldD j "perFile" Json.null with
+      | .null => pure true
+      | v => jBool v
+    let cfg : Cfg := { initResets := ir, perFile := pf }
+    let ops ← jList jOp (← field j "ops")
+    let m : MWorld := { cwd := cwd, owns := List.replicate nev { ev := init W } }
+    match runM cfg m ops with
+    | none => throw "event on an evaluator that does not exist"
+    | some r =>
+      return Json.mkObj [("ok", true), ("outs", Json.arr (r.2.filterMap (·.map outWJson)).toArray)]
   | _ => throw s!"unknown op {op}"
 
 def main : IO Unit := serveFn handle
